@@ -1032,4 +1032,85 @@ theorem push_line_tie (dir : Dir) (s : Sess) (ts : Nat) (pl : Bytes) :
       | error f => rfl
       | ok r => rfl
 
+/-! ### the write path: `Index::update` and `Data::push_data` -/
+
+/-- carrying out the `write_all` calls of the write path on the model's store, in order -/
+def applyWrites (st : Store) : List IoW → Store
+  | [] => st
+  | .dataWrite b :: r => applyWrites { st with data := appendTo st.data b } r
+  | .indexWrite b :: r => applyWrites { st with index := appendTo st.index b } r
+
+/-- what the translated `push_data` returns, carried out: the writes on the store, the changed fields in the session -/
+def runPushData (st : Store) (d : DataSess) (r : R ((DataView × List IoW) × Unit)) : R (Store × DataSess) :=
+  match r with
+  | .ok ((v, tr), _) =>
+    .ok (applyWrites st tr, { d with dataLen := v.dataLen, entries := v.entries, lastFull := v.lastFull, lastTime := v.lastTime })
+  | .error f => .error f
+
+theorem appendTo_appendTo (f : Option Bytes) (a b : Bytes) : appendTo (appendTo f a) b = appendTo f (a ++ b) := by
+  cases f <;> simp [appendTo]
+
+theorem index_update_tie (i : Index) (ts off : Nat) :
+    Index_update i ts off = .ok ((⟨i.entries ++ [⟨ts, off⟩], some ts⟩, [.indexWrite (le8 ts), .indexWrite (le8 off)]), ()) := by
+  simp [Index_update, MetaPos_to_le_bytes, le8, bind_ok, pure_eq_ok]
+
+/-- **`Data::push_data` as translated from the current source is the model's `pushData`**: the out-of-order
+refusal, the test that opens a new section (`> MAX_SMALL_TS`), the index entry written BEFORE the section, the
+section's bytes (`meta::write`), the line's two delta bytes and payload, and the new `data_len`, `last_time`
+and index fields. Side conditions: the caller's slice holds a payload (`push_line` checks the length first) and
+the file stays below 2^64 bytes -/
+theorem push_data_tie (st : Store) (d : DataSess) (ts : Nat) (line : Bytes)
+    (hp : d.p < 2^60) (hl : d.p ≤ line.length) (hlen : d.dataLen + Impl.metaSize d.p + Impl.lineSize d.p < 2^64) :
+    runPushData st d (Data_push_data d.view ts line) = Impl.pushData st d ts line := by
+  have hp2 : d.p + 2 < 2^64 := by omega
+  have hnew : ∀ (tr0 : List IoW), tr0 = [] →
+      runPushData st d (do
+        let t3 ← (Index_update (Rs.indexOf d.view) ts d.view.dataLen)
+        let self := (Rs.withIndex d.view t3.1.1)
+        let trace_ := tr0 ++ t3.1.2
+        let t4 ← (write (BS.leN 8 ts) self.p)
+        let trace_ := trace_ ++ [(IoW.dataWrite t4.1)]
+        let written ← (pure t4.2 : R Nat)
+        let t5 ← (Rs.add self.dataLen written)
+        let self := { self with dataLen := t5 }
+        let small_ts := 0
+        let trace_ := trace_ ++ [(IoW.dataWrite (BS.le2 small_ts))]
+        let t6 ← (Rs.slice line 0 self.p)
+        let trace_ := trace_ ++ [(IoW.dataWrite t6)]
+        let t7 ← (PayloadSize_line_size self.p)
+        let t8 ← (Rs.add self.dataLen t7)
+        let self := { self with dataLen := t8 }
+        let self := { self with lastTime := (some ts) }
+        pure ((self, trace_), ())) =
+      .ok ({ st with index := appendTo st.index (encIEntry ⟨ts, d.dataLen⟩),
+                     data := appendTo st.data (metaWrite d.p ts ++ le2 0 ++ line.take d.p) },
+           { d with entries := d.entries ++ [⟨ts, d.dataLen⟩], lastFull := some ts,
+                    dataLen := d.dataLen + metaSize d.p + lineSize d.p, lastTime := some ts }) := by
+    intro tr0 h0
+    subst h0
+    have hw := write_tie ts d.p hp
+    simp only [le8] at hw
+    have h1 : d.dataLen + Impl.metaSize d.p < 2^64 := by omega
+    simp [index_update_tie, Rs.indexOf, Rs.withIndex, DataSess.view, hw, bind_ok, pure_eq_ok, add_ok h1,
+      line_size_tie d.p hp2, add_ok hlen, Rs.slice, hl, runPushData, applyWrites, appendTo_appendTo, encIEntry, le8]
+  unfold Data_push_data Impl.pushData
+  cases hlf : d.lastFull with
+  | none =>
+    have := hnew [] rfl
+    simp only [Rs.indexOf, DataSess.view, hlf, Option.mapM_none, bind_ok, pure_eq_ok] at this ⊢
+    simpa using this
+  | some lf =>
+    by_cases hlt : ts < lf
+    · simp [Rs.indexOf, DataSess.view, hlf, Option.mapM_some, Rs.checkedSub, Rs.okOr, hlt, Nat.not_le.mpr hlt, runPushData]
+    · have hle : lf ≤ ts := Nat.le_of_not_lt hlt
+      by_cases hbig : Impl.maxSmallTs < ts - lf
+      · have := hnew [] rfl
+        simp only [Rs.indexOf, DataSess.view, hlf, bind_ok, pure_eq_ok] at this
+        simp [Rs.indexOf, DataSess.view, hlf, Option.mapM_some, Rs.checkedSub, Rs.okOr, hle, hlt, hbig, MAX_SMALL_TS_tie, bind_ok, pure_eq_ok]
+        simpa using this
+      · have h16 : ts - lf < 65536 := by have : Impl.maxSmallTs = 65534 := rfl; omega
+        have h1 : d.dataLen + Impl.lineSize d.p < 2^64 := by omega
+        simp [Rs.indexOf, DataSess.view, hlf, Option.mapM_some, Rs.checkedSub, Rs.okOr, hle, hlt, hbig, MAX_SMALL_TS_tie, bind_ok, pure_eq_ok,
+          Rs.tryU16, h16, Rs.slice, hl, line_size_tie d.p hp2, add_ok h1, runPushData, applyWrites, appendTo_appendTo]
+
 end BS.Gen
